@@ -150,7 +150,32 @@ func TestProp(t *testing.T) {
 	rec.Assume("at most one serial-number source unless both are equal; CameraOwnerName only when Artist is absent; sub-second and offset tags only next to their date tag")
 	rec.Assume("directories <= 85 entries and values <= 1024 bytes so that the same file is valid for the unbuffered exif2.Parse path; <= 84 out-of-line references in total")
 	rec.Assume("CameraModel enum asserted only when the Make value precedes the Model value in the file (writers emit values in tag order)")
+	rec.Rule("exhaustive shift: records drawn from VERIF_SEED (plain, and writer-like with > 84 consumed + pending tags), re-encoded with IFD0 at every offset 8..N (N = 4500 quick, 12700 thorough): every directory, value and sub-directory of the block crosses every 1 KiB scratch and 4 KiB reader-buffer boundary at every phase")
 	pbt.RegressDir(t, rec)
+	{
+		idx := 0
+		for ri := 0; ri < rec.Env.Pick(2, 6); ri++ {
+			o := gen.Options{Unbuffered: true, HeavyWriter: ri%2 == 1, MaxForeign: 3}
+			base := rapid.Custom(func(rt *rapid.T) *gen.ExifFile { return gen.GenExif(rt, o) }).Example(int(rec.Env.Seed%100000)*16 + ri + 1)
+			for first := 8; first <= rec.Env.Pick(4500, 12700); first++ {
+				idx++
+				if idx%rec.Env.Shards != rec.Env.Shard {
+					continue
+				}
+				f := base.Reencode(first)
+				if f.Enc.PendingHW > 84 {
+					break // (the writer-like re-layout of this record exceeds the documented pending limit)
+				}
+				c := Case{Rec: f.Rec, Ctx: exifcheck.CtxOf(f), II: f.Enc.II, MM: f.Enc.MM, Order: f.Enc.BlockOrder, HW: f.Enc.PendingHW, Tail: f.Enc.Tail}
+				rec.Case(true, ev.HashS("shift", fmt.Sprint(ri, first)), "first-ifd-offset-sweep")
+				if fl := eval(c); fl != nil {
+					if pbt.Report(t, rec, chkMain.Name, c, fl) {
+						return
+					}
+				}
+			}
+		}
+	}
 	if !pbt.Run(t, rec, chkMain, rec.Env.Pick(3000, 60000), 1) {
 		return
 	}
